@@ -235,13 +235,18 @@ func (p *protocol) gossipTransaction(event dag.Event) (bool, error) {
 	return true, nil
 }
 
-func (p *protocol) sendGossip(transportPeer transport.Peer, refs []hash.SHA256Hash, xor hash.SHA256Hash, clock uint32) bool {
+func (p *protocol) sendGossip(transportPeer transport.Peer, refs []hash.SHA256Hash, _ hash.SHA256Hash, _ uint32) bool {
 	conn := p.connectionList.Get(grpc.ByConnected(), grpc.ByPeer(transportPeer))
 	var err error
 
 	if conn == nil {
 		err = grpc.ErrNoConnection
 	} else {
+		// Do not advertise the XOR and clock that were registered with the gossip queue: they are read and registered
+		// in 2 steps by concurrent callers (gossipTransaction, connectionStateCallback), so the last registered value may
+		// be an older one. It would then be gossiped until the next transaction is added, and a peer whose DAG happens
+		// to have that XOR concludes it is in sync. Always advertise the current state of the DAG.
+		xor, clock := p.state.XOR(dag.MaxLamportClock)
 		err = p.sendGossipMsg(conn, refs, xor, clock)
 	}
 
